@@ -321,9 +321,23 @@ func c14Position(c *Ctx) *tak.Position {
 	case x < 45:
 		c.Count("src.random")
 		return randomPosition(c.R)
-	case x < 80:
+	case x < 72:
 		c.Count("src.symmetric-board")
 		return symmetricPosition(c.R, 3+c.R.Intn(6))
+	case x < 82:
+		c.Count("src.deep-break-board")
+		return deepBreakPosition(c.R, 3+c.R.Intn(6))
+	case x < 88:
+		if tg := towerGame(c.R, 3+c.R.Intn(3)); tg != nil {
+			c.Count("src.tower-game")
+			if len(tg.marks) > 0 && c.R.Chance(1, 2) {
+				if q := replayAll(tg.size, tg.ms[:tg.marks[c.R.Intn(len(tg.marks))]]); q != nil {
+					return q
+				}
+			}
+			return tg.final
+		}
+		fallthrough
 	default:
 		c.Count("src.symmetric-game")
 		return symGamePosition(c.R)
@@ -561,6 +575,8 @@ func genC15(c *Ctx) {
 			emitCanonFamily(c, s.size, ms, true)
 		}
 	}
+	// mirrored tall stacks that differ only deep down (see gen_tower.go)
+	emitTowerGames(c, c.Scale(160, 16000))
 	n := c.Scale(1000, 100000)
 	for it := 0; it < n; it++ {
 		size := 3 + c.R.Intn(6)
